@@ -91,7 +91,7 @@ func World(t *T, s *model.Schema, d *model.Doc, opName string, vars map[string]*
 			if _, dup := w.Outcomes[key]; dup {
 				continue
 			}
-			kinds := []string{"nil", "err", "valerr", "panic_err", "err_foreign", "err_ctx"}
+			kinds := []string{"nil", "err", "valerr", "panic_err", "err_foreign", "err_ctx", "err_located", "err_shared", "panic_shared"}
 			if o.Hostile {
 				kinds = append(kinds, "panic_str", "panic_int", "typednil")
 			}
